@@ -81,12 +81,18 @@ func (i *Ingresses) MatchingPath(r *http.Request) string {
 			continue
 		}
 
-		if strings.HasPrefix(reqPath, p) && len(p) > len(result) {
+		if hasPathPrefix(reqPath, p) && len(p) > len(result) {
 			result = p
 		}
 	}
 
 	return result
+}
+
+// hasPathPrefix reports whether prefix is a prefix of path that ends on a path segment boundary,
+// i.e. "/app" is a prefix of "/app" and "/app/x", but not of "/apple".
+func hasPathPrefix(path, prefix string) bool {
+	return path == prefix || strings.HasPrefix(path, prefix+"/")
 }
 
 func (i *Ingresses) Single() Ingress {
